@@ -208,10 +208,14 @@ def _header_regex(component):
     if kw in ('enum', 'struct', 'mod', 'trait', 'type', 'const', 'static', 'union'):
         name = parts[1]
         return re.compile(r'\b' + kw + r'\s+' + re.escape(name) + r'\b')
-    if kw == 'impl':
-        rest = ' '.join(parts[1:])
-        # allow arbitrary whitespace, and optional generics after 'impl'
-        pat = r'\bimpl\b(?:\s*<[^{;]*?>)?\s*' + r'\s*'.join(re.escape(tok) for tok in re.findall(r'\w+|[^\w\s]', rest)) + r'\s*(?:where[^{]*)?\{'
+    if kw == 'impl' or kw.startswith('impl<'):
+        rest = comp[4:].strip()
+        if rest.startswith('<'):
+            # explicit generics given in the path: match them literally
+            pat = r'\bimpl\s*' + r'\s*'.join(re.escape(tok) for tok in re.findall(r"\w+|[^\w\s]", rest)) + r'\s*(?:where[^{]*)?\{'
+        else:
+            # allow arbitrary whitespace, and optional generics after 'impl'
+            pat = r'\bimpl\b(?:\s*<[^{;]*?>)?\s*' + r'\s*'.join(re.escape(tok) for tok in re.findall(r'\w+|[^\w\s]', rest)) + r'\s*(?:where[^{]*)?\{'
         return re.compile(pat)
     if kw == 'macro_rules!':
         return re.compile(r'\bmacro_rules!\s+' + re.escape(parts[1]) + r'\b')
